@@ -370,22 +370,35 @@ CHECKS = {
          'and counted as rejected. No axioms.')),
  'C09': dict(
    design_ref='§6 C09',
-   technique='Coq proof: verified sound-and-complete checker of "minimum cover by maximal boxes" evaluated by vm_compute on the real cover; model of cover.py sound for all inputs and picks; minimality proved on the property own finite domains',
-   text=('Unbounded: the checker is_min_prime_cover_b is sound and complete '
-         'for the property statement on every finite instance; the reference '
-         'returns a minimum cover; the model of cover.minimize (any pick) '
-         'returns primes that cover f; independent-set lower bound and greedy '
-         'upper bound are valid; the literal quantified _floor/_contains_covered '
-         'formulas equal joins/meets. Bounded (vm_compute, the property own '
-         'quantifier): minimality of the model on all 2^8 x 2^8 (f, care) over '
-         'three two-valued variables, all 2^16 four-variable functions with '
-         'care=TRUE, all subsets of the 3x3 grid. Unbounded minimality of the '
-         'model (C09_full) is stated, not proved. Every real cover is '
-         'validated by the verified checker in Coq; cyclic_core compared '
-         'exactly with the model.'),
+   technique='Coq proof: the model of cover.py returns a minimum cover by primes for all inputs and all pick functions (cyclic-core reduction preserves the minimum, branch and bound exact); verified sound-and-complete checker of "minimum cover by maximal boxes" evaluated by vm_compute on the real cover',
+   text=('Unbounded: C09_full, for every instance and every pick function a '
+         'cover returned by the model of cover.minimize (code as repaired by '
+         'F13 and F16) is a duplicate-free minimum-cardinality cover of f by '
+         'primes of f or outside care; proved from: the cyclic-core reduction '
+         '(maximal ceilings, essential elements, maximal floors, iterated) '
+         'loses no optimal cover and a cover of the core plus the essentials '
+         'covers X (C09_cyclic_core_preserves_minimum); the invariants of '
+         '_traverse/_branch: valid lower bound, returned cover costs at most '
+         'the new upper bound, upper bound never increases and is afterwards '
+         'at most path cost + any cover of the node, unchanged when nothing is '
+         'returned (C09_branch_and_bound_invariants); independent-set lower '
+         'bound and greedy upper bound valid. The checker is_min_prime_cover_b '
+         'is sound and complete for the property statement on every finite '
+         'instance; the reference returns a minimum cover; the literal '
+         'quantified _floor/_contains_covered formulas equal joins/meets. The '
+         'unrepaired leaf of _traverse is refuted (F16: 6-variable witness, '
+         'model returns 4 primes, 3 suffice) as a regression Example. Bounded '
+         '(vm_compute, independent evidence and totality): the model returns '
+         'a minimum cover on all 2^8 x 2^8 (f, care) over three two-valued '
+         'variables, all 2^16 four-variable functions with care=TRUE, all '
+         'subsets of the 3x3 grid. Every real cover is validated by the '
+         'verified checker in Coq; cyclic_core compared exactly with the '
+         'model; cardinalities of model and real minimize compared.'),
    note=('Trusted: Coq kernel+vm_compute; hand model tied by cyclic_core '
-         'equality and the checker; dd by meaning; model describes the '
-         'F13-repaired code. No axioms.')),
+         'equality, cardinality comparison and the checker; dd by meaning '
+         '(the theorem holds for every pick function); model describes the '
+         'F13- and F16-repaired code; termination (fuel) of the model is not '
+         'part of C09_full (it speaks about returned covers). No axioms.')),
  'C10': dict(
    design_ref='§6 C10',
    technique='Coq proof: verified reference and checker of "exactly all minimum covers by primes" evaluated by vm_compute on the real result; model of cover_enum.py sound for all inputs; exactness on the property own finite domains',
